@@ -24,11 +24,14 @@ func classify(sc *g8alib.Schema, pre *g8alib.Table, st *g8alib.Stmt, exp *g8alib
 	if st.Kind == g8alib.SReplace && exp.MultiDelete && mode == "affected-count" && obs.Aff == exp.AffCapped {
 		return "replace-multi-conflict:counts-one-deleted-row-per-new-row"
 	}
-	// a unique-key check met a row deleted/updated earlier in the same statement: the engine's edit
-	// accumulator skips the check; matched only when the engine did exactly what a reference with that
-	// one rule changed does.
-	if exp.Shadowed && matchesDefect(pre, st, obs, g8alib.KeyCmp{ShadowByDeletes: true}) {
-		return "unique-check-hidden-by-row-deleted-earlier-in-statement"
+	// the statement processes a row whose unique-key value equals that of a row version deleted or
+	// updated earlier in the same statement: the engine's edit accumulator then consults the dead
+	// version (abandons the check, or sees it as a conflict). Matched only when the engine did exactly
+	// what an emulation of that accumulator does.
+	if exp.Shadowed {
+		if o, rows, ok := pre.ApplyLikeAccumulator(st, g8alib.EmulOpts{}); ok && g8alib.Mismatch(o, rows, obs) == "" {
+			return "unique-check-consults-row-deleted-earlier-in-statement"
+		}
 	}
 	// DELETE without WHERE: ROW_COUNT() stays 0 although the OK packet carries the count
 	if st.Kind == g8alib.SDelete && st.Where == nil && mode == "row_count()-differs-from-ok-packet" {
@@ -39,22 +42,6 @@ func classify(sc *g8alib.Schema, pre *g8alib.Table, st *g8alib.Stmt, exp *g8alib
 		return "odku-null-into-not-null:reported-as-invalid-type"
 	}
 	return st.Kind.String() + ":" + mode
-}
-
-// matchesDefect re-runs the statement on the pre-state under a deliberately wrong rule and says
-// whether the engine's observation equals that outcome exactly.
-func matchesDefect(pre *g8alib.Table, st *g8alib.Stmt, obs *g8alib.Observed, kc g8alib.KeyCmp) bool {
-	alt := pre.Clone()
-	o := alt.Apply(st, kc)
-	if o.Unspecified != "" {
-		return false
-	}
-	m := g8alib.Mismatch(o, alt.CanonRows(), obs)
-	// the affected-row count of a REPLACE additionally carries the independent defect F15
-	if m == "affected-count" && st.Kind == g8alib.SReplace && o.MultiDelete && obs.Aff == o.AffCapped {
-		m = ""
-	}
-	return m == ""
 }
 
 func main() {
@@ -145,7 +132,7 @@ func pinned(r *core.Run) {
 		if !fails && !(res.ErrClass() == "1062" && core.SameStrings(rows, []string{"1|10|0", "2|20|0"})) {
 			r.Violation("update:pinned-witness-behaves-differently", map[string]any{"setup": setup, "sql": q, "rows": rows, "err": fmt.Sprint(res.Err)})
 		}
-		r.Pinned("unique-check-hidden-by-row-deleted-earlier-in-statement",
+		r.Pinned("unique-check-consults-row-deleted-earlier-in-statement",
 			fmt.Sprintf("%s succeeds and leaves two rows with k=10 in UNIQUE KEY uk: %v (reference: duplicate-key error, rows unchanged)", q, rows), fails,
 			map[string]any{"setup": setup, "sql": q, "rows": rows, "expected": "error 1062; rows 1|10|0 ; 2|20|0"})
 		e.Close()
